@@ -88,7 +88,7 @@ fn print_report(r: &exec::Report) {
                "eq_false_pairs_same_first_element": p.eq_false_pairs_same_first_element, "pairs_compared": p.pairs_compared,
                "inner_pairs_compared": p.inner_pairs_compared, "ops_on_other_threads": p.ops_on_other_threads,
                "successes": p.successes, "failures": p.failures, "skipped_ops": p.skipped_ops,
-               "refills": p.refills, "same_address_and_length_new_content": p.same_address_and_length_new_content, "reparse_checked": p.reparse_checked, "clone_checked": p.clone_checked, "max_live_results": p.max_live_results})
+               "refills": p.refills, "big_input_successes": p.big_input_successes, "same_address_and_length_new_content": p.same_address_and_length_new_content, "reparse_checked": p.reparse_checked, "clone_checked": p.clone_checked, "max_live_results": p.max_live_results})
     )
     .unwrap();
 }
